@@ -128,8 +128,8 @@ var _ = errors.New
 
 type vfDiscovery struct{ ids []uint16 }
 
-func (d *vfDiscovery) Get() []uint16                     { return d.ids }
-func (d *vfDiscovery) Close()                            {}
+func (d *vfDiscovery) Get() []uint16                      { return d.ids }
+func (d *vfDiscovery) Close()                             {}
 func (d *vfDiscovery) GetMetric() *VBucketDiscoveryMetric { return &VBucketDiscoveryMetric{} }
 
 type vfCheckpoint struct {
